@@ -496,8 +496,42 @@ func (c *Ctx) c03Nested(unzip, nested *ssa.Function) {
 				}
 			}
 		})
-		c.check(added[1] && added[2], "W3", fname(unzip)+"/nested-totals", c.ipos(call), "nested file count and size are added to the parent's totals",
-			"the totals of the nested extraction (results #1 count, #2 bytes) are not both added to the parent's counters: a nested bomb escapes the total limits")
+		allPaths := true
+		if added[1] && added[2] {
+			// on every path from the successful nested extraction to the next entry (or a successful return) both additions happen
+			hdr := loopHeaderOf(call)
+			errs := errResultsOf(call)
+			prune := func(b *ssa.BasicBlock, k int) bool {
+				if ifi, ok := b.Instrs[len(b.Instrs)-1].(*ssa.If); ok && len(errs) > 0 {
+					if x, nilSucc, ok := nilTest(ifi); ok && sameValue(x, errs[0]) {
+						return k != nilSucc
+					}
+				}
+				return false
+			}
+			for _, idx := range []int{1, 2} {
+				isAddOf := func(in ssa.Instruction) bool {
+					cl, ok := in.(*ssa.Call)
+					if !ok {
+						return false
+					}
+					if cnt, m := counterOf(&cl.Call); cnt == nil || m != "Add" {
+						return false
+					}
+					for _, l := range sources(cl.Call.Args[1], deriveOpts{through: func(n string) bool { return strings.Contains(n, "/safecast.") }}) {
+						if ex, ok := l.(*ssa.Extract); ok && ex.Tuple == ssa.Value(call) && ex.Index == idx {
+							return true
+						}
+					}
+					return false
+				}
+				if hdr != nil && pathPruned(unzip, call, isAddOf, func(in ssa.Instruction) bool { return in == hdr.Instrs[0] || isReturnOK(unzip, in) }, prune) != nil {
+					allPaths = false
+				}
+			}
+		}
+		c.check(added[1] && added[2] && allPaths, "W3", fname(unzip)+"/nested-totals", c.ipos(call), "nested file count and size are added to the parent's totals on every path",
+			"the totals of the nested extraction (results #1 count, #2 bytes) are not both added to the parent's counters on every path: a nested bomb escapes the total limits")
 		// same limits, depth passed on
 		limOK := paramIndexByName(unzip, "limits") >= 0 && stripConv(call.Call.Args[3]) == ssa.Value(unzip.Params[paramIndexByName(unzip, "limits")])
 		c.check(limOK, "W3", fname(unzip)+"/nested-limits", c.ipos(call), "the caller's limits go down unchanged", "the nested extraction does not receive the caller's limits object")
